@@ -397,6 +397,23 @@ MinReachRankGames ==
            final |-> <<7>>]
     IN  { mk(o1, o2, rb, s1, s2) : o1 \in {P1, P2}, o2 \in {P1, P2}, rb \in {5, 0, 30}, s1 \in BOOLEAN, s2 \in BOOLEAN }
 
+(* FinalDeadEnd: a final state that is NOT absorbing and only moves on to a    *)
+(* dead sink, so that pruning empties it although its own value is 1; it is    *)
+(* numbered BEFORE its predecessors (bundled games list their finals last).    *)
+(*   1 init -> 3, 4 ; 2 F (final, chance) -> 5 ; 3 P -> F or win ; 4 Q -> F ;   *)
+(*   5 dead sink ; 6 win (final, absorbing)                                     *)
+FinalDeadEndGames ==
+    LET mk(o1, o3, o4, fin, r) ==
+          [n |-> 6, owner |-> <<o1, PR, o3, o4, PR, PR>>, reward |-> <<0, r, 4, 10, 0, 0>>,
+           tr |-> << IF o1 = PR THEN <<Tr("", 1, 3), Tr("", 1, 4)>> ELSE <<Tr("l", 0, 3), Tr("r", 0, 4)>>,
+                     <<Tr("", 1, 5)>>,
+                     IF o3 = PR THEN <<Tr("", 1, 2), Tr("", 1, 6)>> ELSE <<Tr("a", 0, 2), Tr("b", 0, 6)>>,
+                     IF o4 = PR THEN <<Tr("", 1, 2)>> ELSE <<Tr("go", 0, 2)>>,
+                     <<Tr("", 1, 5)>>, <<Tr("", 1, 6)>> >>,
+           final |-> fin]
+    IN  { mk(o1, o3, o4, fin, r) : o1 \in {P1, P2, PR}, o3 \in {P1, P2, PR}, o4 \in {P1, PR},
+                                  fin \in {<<2, 6>>, <<6, 2>>}, r \in {0, 3} }
+
 (* ZeroW: probabilistic transitions of weight 0 (never taken, but present):  *)
 (* into dead states, into the final state, next to live ones.                *)
 (*   1 chooser ; 2 chance with a zero-weight edge ; 3 live ; 4 dead ; 5 lose ; 6 win *)
@@ -580,6 +597,7 @@ PermBase(i) ==
     ELSE IF i % 9 = 7 THEN RandomElement(TinyChains)
     ELSE IF i % 18 = 5 THEN RandomElement(SlowRewGames)
     ELSE IF i % 18 = 11 THEN RandomElement(BackChainGames)
+    ELSE IF i % 18 = 2 THEN RandomElement(FinalDeadEndGames)
     ELSE IF i % 18 = 14 THEN RandomElement(ZeroWGames)
     ELSE IF i % 9 = 8 THEN RandomElement(IF i % 2 = 0 THEN TieUp ELSE TieGames)
     ELSE IF i % 3 = 0 THEN RandomElement(DeadGames)
